@@ -1,6 +1,8 @@
 import GV.Model.NativeScript
 import GV.Gen.RuleLists
 import GV.Gen.NativeScriptIds
+import GV.Gen.NativeScriptHash
+import GV.Gen.NativeScriptStructs
 /-!
 C29 — Native scripts evaluate as the ledger defines them.
 
@@ -265,6 +267,96 @@ theorem rules_listed :
 theorem gen_type_ids :
     (∀ e ∈ GV.Gen.NativeScriptIds.table, ctorName e.1 = some e.2) ∧
     (∀ id, id < 32 → (ctorName id).isSome = (GV.Gen.NativeScriptIds.table.map (·.1)).contains id) := by
+  decide
+
+
+-- ------------------------------------------------------------------ script hash (digest abstract)
+
+theorem consumed_nil (b : Bytes) : consumed b [] = b := by
+  unfold consumed; simp
+
+theorem finish_spans (b : Bytes) (arg : Arg) (body : Option (Script × List Bytes × Bytes × Nat))
+    (p : Parsed) (r : Bytes) (h : finish b arg body = some (p, r)) : storedBytes p = consumed b r := by
+  unfold finish at h
+  split at h
+  · cases h
+  · split at h
+    · split at h
+      · simp only [Option.some.injEq, Prod.mk.injEq] at h
+        obtain ⟨h1, h2⟩ := h; subst h1; subst h2; rfl
+      · cases h
+    · split at h
+      · split at h
+        · simp only [Option.some.injEq, Prod.mk.injEq] at h
+          obtain ⟨h1, h2⟩ := h; subst h1; subst h2; rfl
+        · cases h
+      · cases h
+
+/-- the first stored span of a parsed script is exactly the bytes the parser consumed -/
+theorem spans_head (f : Nat) (b : Bytes) (p : Parsed) (r : Bytes)
+    (h : parseScript f b = some (p, r)) : storedBytes p = consumed b r := by
+  cases f with
+  | zero => simp [parseScript] at h
+  | succ f =>
+    unfold parseScript at h
+    split at h
+    · split at h
+      · cases h
+      · exact finish_spans _ _ _ _ _ h
+    · cases h
+
+/-- **Byte preservation**: what a decoded script stores (`s.Cbor()`) is its original encoding. -/
+theorem stored_is_original (b : Bytes) (p : Parsed) (h : decode b = some p) : storedBytes p = b := by
+  unfold decode at h
+  split at h
+  · rename_i p' hp
+    cases h
+    rw [spans_head _ _ _ _ hp, consumed_nil]
+  · cases h
+
+/-- **The hash clause**: a decoded script's hash is the digest of a zero byte followed by its
+    ORIGINAL encoding, for every digest function (Blake2b-224 is a primitive). -/
+theorem hash_original_bytes {D : Type} (h224 : Bytes → D) (b : Bytes) (p : Parsed)
+    (h : decode b = some p) : hashOf h224 p = h224 (0x00 :: b) := by
+  unfold hashOf; rw [stored_is_original b p h]
+
+/-- Under an injective digest (ideal binding) equal hashes mean equal original bytes: two
+    different encodings of the same script tree have different hashes. -/
+theorem hash_binding {D : Type} (h224 : Bytes → D) (hinj : Function.Injective h224)
+    (b1 b2 : Bytes) (p1 p2 : Parsed) (h1 : decode b1 = some p1) (h2 : decode b2 = some p2)
+    (he : hashOf h224 p1 = hashOf h224 p2) : b1 = b2 := by
+  rw [hash_original_bytes h224 b1 p1 h1, hash_original_bytes h224 b2 p2 h2] at he
+  have := hinj he
+  simpa using this
+
+/-- toy digest (identity): the hypotheses are satisfiable, and the hash of `[4, 0]` (InvalidBefore 0)
+    decoded from its definite and from its indefinite encoding differ -/
+example : Function.Injective (fun b : Bytes => b) := fun _ _ h => h
+example :
+    (decode [0x82, 0x04, 0x00]).map (hashOf (fun b => b)) = some [0x00, 0x82, 0x04, 0x00] ∧
+    (decode [0x9f, 0x04, 0x00, 0xff]).map (hashOf (fun b => b)) = some [0x00, 0x9f, 0x04, 0x00, 0xff] := by
+  decide
+
+/-- Regenerated tie (go/ast facts, re-extracted on every run): `NativeScript.Hash` is
+    `ScriptHash(Blake2b224Hash(slices.Concat([]byte{ScriptRefTypeNativeScript}, []byte(s.Cbor()))))` —
+    it hashes the STORED bytes of the receiver, not a re-encoding; the prefix constant is 0; and
+    `UnmarshalCBOR` stores its input first (`n.SetCbor(data)`). -/
+theorem gen_hash_source :
+    GV.Gen.NativeScriptHash.hashFn = "Blake2b224Hash" ∧
+    GV.Gen.NativeScriptHash.prefixExpr = "ScriptRefTypeNativeScript" ∧
+    GV.Gen.NativeScriptHash.prefixValue = 0 ∧
+    GV.Gen.NativeScriptHash.bytesExpr = GV.Gen.NativeScriptHash.receiver ++ ".Cbor()" ∧
+    GV.Gen.NativeScriptHash.unmarshalFirstStmt =
+      "n.SetCbor(" ++ GV.Gen.NativeScriptHash.unmarshalParam ++ ")" := by
+  decide
+
+/-- Regenerated tie: the NativeScript* structures (filled by position: cbor.StructAsArray) declare
+    their fields in the order the model's parser reads them, for every type id of the decoder's
+    switch. -/
+theorem gen_struct_fields :
+    ∀ e ∈ GV.Gen.NativeScriptIds.table,
+      (GV.Gen.NativeScriptStructs.table.lookup e.2) =
+        (fieldLayout e.1).map (fun l => "embedded cbor.StructAsArray" :: l) := by
   decide
 
 /-- Non-vacuity of the partial theorem: a nested script with both kinds of time lock, evaluated
